@@ -58,8 +58,8 @@ def constructor_lanes(food, uc, rep):
         raise AnalysisError("Food.__init__ / set_units not found")
     LANES3 = ("kcals", "fat", "protein")
     order = [a.arg for a in su.args.args][1:4]
-    if [o.replace("_units", "") for o in order] != list(LANES3):
-        raise AnalysisError(f"set_units no longer takes (kcals_units, fat_units, protein_units): {order}")
+    if sorted(o.replace("_units", "") for o in order) != sorted(LANES3) or not all(o.endswith("_units") for o in order):
+        raise AnalysisError(f"set_units no longer takes the three labels kcals_units, fat_units, protein_units (in any order): {order}")
 
     def refs(e, suffix, skip_len=True):
         """which of the three lanes (suffix '') or labels (suffix '_units') an expression reads, as parameters or as attributes of self"""
@@ -111,7 +111,7 @@ def constructor_lanes(food, uc, rep):
         ok = len(bound) >= 3 and not any(isinstance(a_, ast.Starred) for a_ in args)
         detail = ""
         if ok:
-            for p_, ln in zip(order, LANES3):
+            for p_, ln in [(o_, o_.replace("_units", "")) for o_ in order]:
                 got = refs(copy.deepcopy(bound[p_]), "_units") if p_ in bound else {"?"}
                 if got != {ln}:
                     ok = False
